@@ -53,4 +53,83 @@ theorem unsupported_operand_propagates (c : Ctx V) (op : String) (w : Bool) (g :
     (h : engOp c e = .error er) : engOp c (.agg op w g e) = .error er := by
   rw [engOp]; simp [h, bind, Except.bind]
 
+/-! ### no operand's rejection is lost
+
+An expression is planned natively only if each of its operands is: whichever operand plan
+construction rejects - the first or a later one, the vector or a scalar argument - the rejection
+is the result for the whole expression, so the query reaches the fallback. (The shape of a seeded
+change that the enumeration missed at first: `histogram_quantile(q, b)` planning both arguments
+and looking only at the second error.) -/
+
+theorem binary_operands_propagate (c : Ctx V) (op : String) (b : Bool) (m : Matching) (l r : Expr V) (er : Err) :
+    (engOp c l = .error er → engOp c (.bin op b m l r) = .error er) ∧
+    (∀ lo, engOp c l = .ok lo → engOp c r = .error er → engOp c (.bin op b m l r) = .error er) := by
+  constructor
+  · intro h; rw [engOp]; simp [h, bind, Except.bind]
+  · intro lo hl h; rw [engOp]; simp [hl, h, bind, Except.bind]
+
+theorem parameter_and_operand_propagate (c : Ctx V) (op : String) (w : Bool) (g : List String) (p e : Expr V) (er : Err) :
+    (engOp c e = .error er → engOp c (.aggP op w g p e) = .error er) ∧
+    (∀ o, engOp c e = .ok o → engOp c p = .error er → engOp c (.aggP op w g p e) = .error er) := by
+  constructor
+  · intro h; rw [engOp]; simp [h, bind, Except.bind]
+  · intro o ho h; rw [engOp]; simp [ho, h, bind, Except.bind]
+
+theorem histogram_arguments_propagate (c : Ctx V) (q a : Expr V) (er : Err) :
+    (engOp c q = .error er → engOp c (.call "histogram_quantile" [q, a]) = .error er) ∧
+    (∀ qo, engOp c q = .ok qo → engOp c a = .error er → engOp c (.call "histogram_quantile" [q, a]) = .error er) := by
+  constructor
+  · intro h; rw [engOp]; simp [h, bind, Except.bind]
+  · intro qo hq h; rw [engOp]; simp [hq, h, bind, Except.bind]
+
+/-- in general: a natively planned expression has natively planned operands -/
+theorem native_needs_native_operands (c : Ctx V) :
+    (∀ (e : Expr V) o, engOp c (.neg e) = .ok o → ∃ o', engOp c e = .ok o') ∧
+    (∀ (e : Expr V) o, engOp c (.paren e) = .ok o → ∃ o', engOp c e = .ok o') ∧
+    (∀ op w g (e : Expr V) o, engOp c (.agg op w g e) = .ok o → ∃ o', engOp c e = .ok o') ∧
+    (∀ op w g (p e : Expr V) o, engOp c (.aggP op w g p e) = .ok o →
+      (∃ o', engOp c e = .ok o') ∧ ∃ po, engOp c p = .ok po) ∧
+    (∀ op b m (l r : Expr V) o, engOp c (.bin op b m l r) = .ok o →
+      (∃ lo, engOp c l = .ok lo) ∧ ∃ ro, engOp c r = .ok ro) ∧
+    (∀ (q a : Expr V) o, engOp c (.call "histogram_quantile" [q, a]) = .ok o →
+      (∃ qo, engOp c q = .ok qo) ∧ ∃ ao, engOp c a = .ok ao) := by
+  refine ⟨?_, ?_, ?_, ?_, ?_, ?_⟩
+  · intro e o h
+    rw [engOp] at h
+    cases he : engOp c e with
+    | error er => simp [he, bind, Except.bind] at h
+    | ok o' => exact ⟨o', rfl⟩
+  · intro e o h
+    rw [engOp] at h
+    exact ⟨o, h⟩
+  · intro op w g e o h
+    rw [engOp] at h
+    cases he : engOp c e with
+    | error er => simp [he, bind, Except.bind] at h
+    | ok o' => exact ⟨o', rfl⟩
+  · intro op w g p e o h
+    rw [engOp] at h
+    cases he : engOp c e with
+    | error er => simp [he, bind, Except.bind] at h
+    | ok o' =>
+      cases hp : engOp c p with
+      | error er => simp [he, hp, bind, Except.bind] at h
+      | ok po => exact ⟨⟨o', rfl⟩, po, rfl⟩
+  · intro op b m l r o h
+    rw [engOp] at h
+    cases hl : engOp c l with
+    | error er => simp [hl, bind, Except.bind] at h
+    | ok lo =>
+      cases hr : engOp c r with
+      | error er => simp [hl, hr, bind, Except.bind] at h
+      | ok ro => exact ⟨⟨lo, rfl⟩, ro, rfl⟩
+  · intro q a o h
+    rw [engOp] at h
+    cases hq : engOp c q with
+    | error er => simp [hq, bind, Except.bind] at h
+    | ok qo =>
+      cases ha : engOp c a with
+      | error er => simp [hq, ha, bind, Except.bind] at h
+      | ok ao => exact ⟨⟨qo, rfl⟩, ao, rfl⟩
+
 end PromqlVerif.C08
